@@ -45,7 +45,7 @@ m = {
  "engines": [{"name": "hpcheck", "path": "/verif/checker", "serves_properties": sorted(CLAIMS),
               "kind_free_text": "repository-specific static analyser (go/packages + go/types typed AST, structured path interpreter, go/ssa call graph); no code under /repo is executed"}],
  "checks": checks,
- "notes": "Static analysis only. Every check re-parses and type-checks /repo's current working tree. All claims are at level 'other': each decides named structural necessary conditions of its property (DESIGN.md section 4), never the behaviour as a whole. fix: commits in /repo repair genuine defects the checks found (listed as fixed in /verif/known_findings.json). Three genuine defects (30 constructs) are recorded there as status known instead of being repaired (C15 G38: handlers identified by code pointer in Unuse; C10 L13: connect under the pool lock in three transports; C06 T15: wire integers narrowed, sign-changed, accumulated and truncated without a range test at 23 sites, 26 under GOARCH=386 - the existing suite asserts the wrap-around, so no repair can pass it unedited): the checks print KNOWN-FINDING lines for exactly those constructs and exit 0; any other violation of the same rules is a VIOLATION.",
+ "notes": "Static analysis only. Every check re-parses and type-checks /repo's current working tree. All claims are at level 'other': each decides named structural necessary conditions of its property (DESIGN.md section 4), never the behaviour as a whole. fix: commits in /repo repair genuine defects the checks found (listed as fixed in /verif/known_findings.json). Three genuine defects (30 constructs) are recorded there as status known instead of being repaired (C15-C20 G38: handlers identified by code pointer in Unuse, printed by the check of every plugin property; C10 L13: connect under the pool lock in three transports; C06 T15: wire integers narrowed, sign-changed, accumulated and truncated without a range test at 23 sites, 26 under GOARCH=386 - the existing suite asserts the wrap-around, so no repair can pass it unedited): the checks print KNOWN-FINDING lines for exactly those constructs and exit 0; any other violation of the same rules is a VIOLATION.",
  "not_applicable": na,
 }
 json.dump(m, open("/verif/MANIFEST.json", "w"), indent=1)
